@@ -257,6 +257,12 @@ impl BlockWrite for RollingWriter {
             let (file_number, file) =
                 if let Some(next_file_number) = self.directory.files.next(&self.file_number) {
                     let file = self.directory.open_file(&next_file_number)?;
+                    // The file may have been left empty by a crash between its creation and
+                    // its sizing: blocks written to a file that does not end up with its
+                    // full size cannot be read back.
+                    if file.metadata()?.len() < FILE_NUM_BYTES as u64 {
+                        file.set_len(FILE_NUM_BYTES as u64)?;
+                    }
                     (next_file_number, file)
                 } else {
                     let next_file_number = self.directory.files.inc(&self.file_number);
